@@ -82,15 +82,23 @@ pub fn geom_cases(tier: &str) -> Vec<GeomCase> {
 
 fn parse_json(px: &[bool], w: usize, base: &[u8]) -> Value {
     let p = px.to_vec();
-    match guarded(move || MatrixMap::<bool>::try_from_bits(&p, w).map(|(m, s)| (m.codewords(), s))) {
-        Outcome::Val(Ok((cw, s))) => {
+    let p2 = px.to_vec();
+    match guarded(move || {
+        MatrixMap::<bool>::try_from_bits(&p, w).map(|(m, s)| {
+            // re-render the parsed content: must reproduce the input bit for bit
+            let bm = m.bitmap();
+            let ndiff = if bm.bits().len() == p2.len() { bm.bits().iter().zip(p2.iter()).filter(|(a, b)| a != b).count() } else { usize::MAX / 2 };
+            (m.codewords(), s, bm.width(), ndiff)
+        })
+    }) {
+        Outcome::Val(Ok((cw, s, rw, ndiff))) => {
             let same_len = cw.len() == base.len();
             let diff: Vec<Value> = if same_len {
                 cw.iter().zip(base.iter()).enumerate().filter(|(_, (a, b))| a != b).map(|(i, (a, _))| json!([i + 1, *a])).collect()
             } else {
                 vec![]
             };
-            json!({"kind": "Ok", "size": size_name(s), "len": cw.len(), "diff": diff})
+            json!({"kind": "Ok", "size": size_name(s), "len": cw.len(), "diff": diff, "rerenderWidth": rw, "rerenderDiff": ndiff.min(1_000_000)})
         }
         Outcome::Val(Err(e)) => json!({"kind": "Err", "err": format!("{:?}", e)}),
         Outcome::Panic(l, m) => panic_json(&l, &m),
